@@ -9,6 +9,7 @@ R:   every dumped behaviour (cfg, interface) is concretised and driven through t
 import random
 
 from harness import conv
+from harness import gamma as G
 from harness.common import NCPU, MachineryError
 
 
@@ -16,6 +17,7 @@ dump_cases = conv.dump_cases
 
 
 def check(run, replay=None):
+    G.OPENERS[0] = G.DOC_OPENERS      # (inherited by the forked replay workers)
     run.rule = ("case = (style, emit_default_doc, emit_types) x interface of 0..2 parameters (15 type shapes x compatible "
                 "defaults x 2 description kinds) + optional return, enumerated by TLC; distinct = distinct (cfg, interface); "
                 "non-trivial = at least one parameter")
